@@ -156,6 +156,18 @@ def run(ctx, mode="c11"):
     if not cases:
         ctx.broken_tie("harness produced no cases", "")
         return
+    # a case without a wire, or with fewer chunks on the wire than the schedule wrote (the proxy had not seen them
+    # all when the scenario ended), is inconclusive: counted, not fed to the oracle or to the Coq comparison
+    def conclusive(c):
+        if c.get("wire") is None:
+            return False
+        wrote = sum(1 for e in c["events"] if e[0] in ("chunk", "renopn"))
+        return len(c["wire"]) >= wrote
+    inconclusive = [c for c in cases if not conclusive(c)]
+    cases = [c for c in cases if conclusive(c)]
+    if not cases:
+        ctx.broken_tie("every schedule was inconclusive", json.dumps([c.get("scenario") for c in inconclusive])[:1500])
+        return
 
     new, seen = 0, set()
     for c in cases:
@@ -199,6 +211,7 @@ def run(ctx, mode="c11"):
         "schedules_with_send_failing_before_first_chunk": sum(1 for c in cases if early_failures(c)),
         "schedules_with_renewal": sum(1 for c in cases if c.get("renews")),
         "chunks_on_wire": sum(len(c["wire"]) for c in cases), "scenario_errors": len(errors),
+        "inconclusive": len(inconclusive), "inconclusive_scenarios": [c.get("scenario") for c in inconclusive][:10],
         "traces_validated_against_impl": len(cases), "model_impl_mismatches": len(mism),
     })
     ctx.notes.append("level: full on the model (all schedules, any number of threads); the tie to Go scheduling is by forced schedules at the granularity of the scheduling points")
